@@ -29,8 +29,8 @@ type GNode struct {
 
 type GCase struct {
 	Nodes []GNode `json:"nodes"`
-	Root  int     `json:"root"` // -1: the injector's result does not touch the graph
-	Sub   bool    `json:"sub"`  // graph items live in a nested named set
+	Root  int     `json:"root"`            // -1: the injector's result does not touch the graph
+	Sub   bool    `json:"sub"`             // graph items live in a nested named set
 	Parts int     `json:"parts,omitempty"` // >=2: items are spread over that many named sets which are only united by a set listing nothing but sets
 	Tag   string  `json:"tag"`
 	Alone bool    `json:"alone,omitempty"` // run in its own invocation under the time bound
@@ -614,7 +614,7 @@ func init() {
 	eng.Register(&eng.Property{
 		ID:    "C07",
 		Level: "exploration",
-		Rule: "cases are provider graphs rendered as Wire programs and run through `wire gen` built from /repo: every labelled digraph with self-loops on 3 nodes (thorough: also on 4 nodes), rapid-drawn graphs of 4-40 nodes (DAGs, one back edge, random), and stress shapes (diamond lattices up to 2^40/2^60 paths, chains, fans) run alone under a calibrated time bound; edge kinds (function parameter, struct field, field->parent, interface binding) are drawn per node; oracle = reference DFS cycle decision vs exit status, `cycle for` diagnostic and absence/presence of wire_gen.go. Non-trivial = graph with a cycle that avoids node 0 (the first search root), or a stress shape; distinct by hash of the graph.",
+		Rule:  "cases are provider graphs rendered as Wire programs and run through `wire gen` built from /repo: every labelled digraph with self-loops on 3 nodes (thorough: also on 4 nodes), rapid-drawn graphs of 4-40 nodes (DAGs, one back edge, random), and stress shapes (diamond lattices up to 2^40/2^60 paths, chains, fans) run alone under a calibrated time bound; edge kinds (function parameter, struct field, field->parent, interface binding) are drawn per node; oracle = reference DFS cycle decision vs exit status, `cycle for` diagnostic and absence/presence of wire_gen.go. Non-trivial = graph with a cycle that avoids node 0 (the first search root), or a stress shape; distinct by hash of the graph.",
 		Assumptions: []string{
 			"termination is checked as completion within max(60s, 20x a calibration run) on generated inputs; it cannot be established for all inputs by testing",
 			"the go toolchain's package loading (go list) is trusted",
@@ -625,7 +625,9 @@ func init() {
 			}
 			return 8
 		},
-		Timeout:    func(tier string) time.Duration { return map[string]time.Duration{"quick": 20 * time.Minute, "thorough": 90 * time.Minute}[tier] },
+		Timeout: func(tier string) time.Duration {
+			return map[string]time.Duration{"quick": 20 * time.Minute, "thorough": 90 * time.Minute}[tier]
+		},
 		Run:        c07Run,
 		ReplayCase: c07Replay,
 	})
